@@ -266,6 +266,58 @@ def rule_o2(repo, col):
                    "StructSort.%s must be struct_cmp(self.obj, other.obj) %s 0 but uses %s" % (mname, OPNAME[opcls], OPNAME[got]))
 
 
+def _truth_set(m, f, actual, depth):
+    """values c of struct_cmp(<actual[0]>, <actual[1]>) for which the boolean builtin f returns True; None when the shape is not understood.
+    `actual` names the caller's (a, b) in terms of which the result is expressed: ('a','b') or ('b','a') relative to the top-level builtin."""
+    if depth > 3:
+        return None
+    e = single_return_expr(f)
+    if e is None:
+        return None
+    p1, p2 = f.params[0], f.params[1]
+
+    def ev(x):
+        if isinstance(x, ast.UnaryOp) and isinstance(x.op, ast.Not):
+            t = ev(x.operand)
+            return None if t is None else {-1, 0, 1} - t
+        rr = _cmp_with_zero(x)
+        if rr is not None:
+            op, a_, b_ = rr
+            names = (norm(a_), norm(b_))
+            if names == (p1, p2):
+                sign = 1
+            elif names == (p2, p1):
+                sign = -1
+            else:
+                return None
+            test = {ast.Lt: lambda c: c < 0, ast.LtE: lambda c: c <= 0, ast.Gt: lambda c: c > 0, ast.GtE: lambda c: c >= 0, ast.Eq: lambda c: c == 0, ast.NotEq: lambda c: c != 0}.get(op)
+            if test is None:
+                return None
+            return set(c for c in (-1, 0, 1) if test(sign * c))
+        if isinstance(x, ast.Call) and isinstance(x.func, ast.Name) and x.func.id in m.functions and len(x.args) >= 2:
+            names = (norm(x.args[0]), norm(x.args[1]))
+            g = m.functions[x.func.id]
+            inner = _truth_set(m, g, None, depth + 1)
+            if inner is None:
+                return None
+            if names == (p1, p2):
+                return inner
+            if names == (p2, p1):
+                return set(-c for c in inner)
+            return None
+        if isinstance(x, ast.BoolOp):
+            parts = [ev(v) for v in x.values]
+            if any(p_ is None for p_ in parts):
+                return None
+            out = parts[0]
+            for p_ in parts[1:]:
+                out = (out & p_) if isinstance(x.op, ast.And) else (out | p_)
+            return out
+        return None
+
+    return ev(e)
+
+
 REG = {"@<": ast.Lt, "@=<": ast.LtE, "@>": ast.Gt, "@>=": ast.GtE}
 
 
@@ -283,21 +335,15 @@ def rule_o3(repo, col):
                      construct="add_builtin(%r, 2, ...)" % name, function="add_standard_builtins")
             continue
         f = r.func
-        e = single_return_expr(f)
-        rr = _cmp_with_zero(e) if e is not None else None
-        if rr is None:
+        # truth set of the builtin over the three values of struct_cmp(a, b): evaluated through negations, swapped operands and sibling builtins
+        truth = _truth_set(m, f, (f.params[0], f.params[1]), 0)
+        if truth is None:
             raise AnalysisError("%s: shape not understood" % r.funcname)
-        got, x, y = rr
-        p1, p2 = f.params[0], f.params[1]
-        if (norm(x), norm(y)) == (p2, p1):
-            flip = {ast.Lt: ast.Gt, ast.Gt: ast.Lt, ast.LtE: ast.GtE, ast.GtE: ast.LtE}
-            got = flip.get(got, got)
-        elif (norm(x), norm(y)) != (p1, p2):
-            raise AnalysisError("%s: operands not understood" % r.funcname)
-        col.decide("O3", m, r.node, got is opcls and r.wrapper == "b",
-                   "%s/2 is bound to %s which tests struct_cmp(a,b) %s 0" % (name, r.funcname, OPNAME[opcls]),
-                   "%s/2 is bound to %s(%s) which tests struct_cmp(a,b) %s 0; expected boolean wrapper and operator %s"
-                   % (name, r.wrapper, r.funcname, OPNAME.get(got, "?"), OPNAME[opcls]))
+        want = {ast.Lt: {-1}, ast.LtE: {-1, 0}, ast.Gt: {1}, ast.GtE: {0, 1}}[opcls]
+        col.decide("O3", m, r.node, truth == want and r.wrapper == "b",
+                   "%s/2 is bound to %s, true exactly for struct_cmp(a,b) in %s" % (name, r.funcname, sorted(want)),
+                   "%s/2 is bound to %s(%s), which is true for struct_cmp(a,b) in %s; the operator %s must hold exactly for %s (boolean wrapper expected)"
+                   % (name, r.wrapper, r.funcname, sorted(truth), OPNAME[opcls], sorted(want)))
     # == and \== : exact complements on the same operands
     same = [r for r in rows if r.name == "==" and r.arity == 2]
     nsame = [r for r in rows if r.name == "\\==" and r.arity == 2]
